@@ -200,6 +200,12 @@ func buildUnit(scratch string, u Unit, idx int) builtUnit {
 	}
 	if u.Race {
 		args = append(args, "-race")
+		if strings.Contains(u.Tags, "poll_opt") {
+			// -race switches on checkptr, and the poll_opt poller deliberately converts the (4-byte
+			// aligned) data field of a packed epoll_event into a pointer: "fatal error: checkptr:
+			// misaligned pointer conversion" on the first event. Harmless on amd64; checkptr off.
+			args = append(args, "-gcflags=all=-d=checkptr=0")
+		}
 	}
 	args = append(args, "./"+u.Pkg)
 	cmd := exec.Command("go", args...)
